@@ -118,7 +118,7 @@ var reviewedBounds = []reviewed{
 		}},
 	{fn: "gofakes3.(*uploader).ListMultipartUploads", check: "IsInBounds", base: "phi-of-index-values",
 		leaves: []string{"const:-1;const:1"},
-		why: "uploads[idx+1] is reached only when idx != len(uploads)-1 inside a range over uploads, hence idx+1 < len(uploads)",
+		why:    "uploads[idx+1] is reached only when idx != len(uploads)-1 inside a range over uploads, hence idx+1 < len(uploads)",
 		premise: func(r *core.Run, ctx *oblig.Ctx, s *oblig.Site) (bool, string) {
 			for _, f := range ctx.FactsAt(s.Instr) {
 				if f.Op != token.NEQ {
@@ -136,15 +136,15 @@ var reviewedBounds = []reviewed{
 		}},
 	{fn: "gofakes3.(*uploader).ListMultipartUploads", check: "IsInBounds", base: "assert(call:goskipiter.(*Iterator).Value)",
 		leaves: []string{"const:0"},
-		why: "the object index never maps a key to an empty slice (R14.4: remove deletes the key when the last upload goes, add always stores a non-empty slice)",
+		why:    "the object index never maps a key to an empty slice (R14.4: remove deletes the key when the last upload goes, add always stores a non-empty slice)",
 		premise: func(r *core.Run, ctx *oblig.Ctx, s *oblig.Site) (bool, string) {
 			return indexNeverEmpty(r, ctx)
 		}},
 	{fn: "gofakes3.(*uploader).UploadPart", check: "IsInBounds", base: "field:gofakes3.multipartUpload.parts",
-		why: "every caller passes partNumber >= 1, and the slice is grown to partNumber+1 on the arm partNumber >= len(parts) immediately before",
+		why:     "every caller passes partNumber >= 1, and the slice is grown to partNumber+1 on the arm partNumber >= len(parts) immediately before",
 		premise: premiseUploadPartIndex},
 	{fn: "gofakes3.(*uploader).CompleteMultipartUpload", check: "IsInBounds", base: "field:gofakes3.multipartUpload.parts",
-		why: "same index expression as the validated site of the first loop over the same input.Parts; parts is not written in between",
+		why:     "same index expression as the validated site of the first loop over the same input.Parts; parts is not written in between",
 		premise: premiseTwinSite},
 	{fn: "s3mem.(*versionGenerator).Next", check: "IsSliceInBounds", base: "phi(make:[]byte,param#1:[]byte)",
 		why: "scratch is re-made with length len(idb)+neat+1 whenever it is shorter, so len(idb)+1 <= len(scratch)",
@@ -1288,7 +1288,20 @@ func rule096(r *core.Run) {
 		name := fname(r, f)
 		for i, c := range nexts {
 			args := c.Common().Args
-			r.Check(len(args) == 2 && args[0] == w && sameRequest(r, args[1], rq, 0), "R09.6", key(name, "next args", sprintf("#%d", i)), pos(r, c.(ssa.Instruction)),
+			okReq := len(args) == 2
+			if okReq {
+				// a request merged from several ways (phi) must be the incoming request on each
+				vals := []ssa.Value{args[1]}
+				if ph, ok := args[1].(*ssa.Phi); ok {
+					vals = ph.Edges
+				}
+				for _, v := range vals {
+					if !sameRequest(r, v, rq, 0) {
+						okReq = false
+					}
+				}
+			}
+			r.Check(okReq && args[0] == w, "R09.6", key(name, "next args", sprintf("#%d", i)), pos(r, c.(ssa.Instruction)),
 				"next.ServeHTTP(w, rq) with the incoming writer and request", "the next handler is not called with the incoming ResponseWriter and Request")
 			// never twice on one path
 			for j, d := range nexts {
